@@ -760,6 +760,13 @@ class Evaluator:
             self._guarded(st, False, test, st.orelse, env, fctx)
         else:
             e1, e2 = env.copy(), env.copy()
+            # `x is None` / `x is not None` on a local narrows the alternatives the local stands for on the two arms
+            # (after `if x is None: continue` the rest of the block no longer sees the None alternative)
+            t_ = st.test
+            if isinstance(t_, ast.Compare) and len(t_.ops) == 1 and isinstance(t_.ops[0], (ast.Is, ast.IsNot)) and isinstance(t_.left, ast.Name) and isinstance(t_.comparators[0], ast.Constant) and t_.comparators[0].value is None:
+                is_none_on_true = isinstance(t_.ops[0], ast.Is)
+                self._narrow_none(e1, t_.left.id, keep_none=is_none_on_true)
+                self._narrow_none(e2, t_.left.id, keep_none=not is_none_on_true)
             self._guarded(st, True, test, st.body, e1, fctx)
             self._guarded(st, False, test, st.orelse, e2, fctx)
             env.join_from([e1, e2])
@@ -769,6 +776,21 @@ class Evaluator:
                 self.guards.append((st, False, test))
             elif e2.dead and not e1.dead:
                 self.guards.append((st, True, test))
+
+    @staticmethod
+    def _narrow_none(env, name, keep_none):
+        d = env.defining(name) or env
+        v = d.vars.get(name)
+        if v is None or v[0] != 'alt':
+            return
+        members = list(v[1])
+        kept = [m for m in members if (m == NONE) == keep_none]
+        if kept and len(kept) < len(members):
+            if d is not env:
+                # narrowing is local to this arm: shadow the outer binding
+                env.vars[name] = alt(*kept)
+            else:
+                env.vars[name] = alt(*kept)
 
     def _guarded(self, st, pol, test, body, env, fctx):
         self.guards.append((st, pol, test))
